@@ -18,7 +18,13 @@ def run_online(driver, backend, nsteps, hook=None, tid=0, src="random"):
     """Drive one random history online; returns a concrete trace dict."""
     del impl.WRITE_LOG[:]
     default0, rules0 = dict(driver.default), list(driver.rules)
-    ix = impl.Index(backend, default0, rules0)
+    try:
+        ix = impl.Index(backend, default0, rules0)
+    except impl.MachineryError:
+        raise
+    except Exception as e:      # the constructor itself failed: an outcome, not a harness problem
+        return {"id": tid, "backend": backend, "def": default0, "rules": rules0, "steps": [],
+                "abort": {"step": 1, "err": "init:" + impl.exc_name(e), "op": "Init"}, "src": src, "ops": []}
     steps = []
     ops = []
     try:
@@ -68,7 +74,14 @@ def run_online_multi(driver, roles, nsteps, hook=None, tid=0, src="random", pair
     try:
         for j, (be, skip) in enumerate(roles):
             del impl.WRITE_LOG[:]
-            ix = impl.Index(be, default0, rules0)
+            try:
+                ix = impl.Index(be, default0, rules0)
+            except impl.MachineryError:
+                raise
+            except Exception as e:
+                return [{"id": tid + jj, "backend": roles[jj][0], "def": default0, "rules": rules0, "steps": [],
+                         "abort": {"step": 1, "err": "init(%s):%s" % (be, impl.exc_name(e)), "op": "Init"},
+                         "src": src, "ops": [], "pairid": -1, "pairname": pairname} for jj in range(1)]
             ixs.append(ix)
             raw_t, raw_l = ix.raw()
             w = list(impl.WRITE_LOG)
@@ -271,3 +284,36 @@ def validate(traces, workdir, extra=None, keep=False):
     states = (int(m.group(1)), int(m.group(2))) if m else (0, 0)
     return {"verdicts": verdicts, "consumed": consumed, "states": states, "wall": wall,
             "batch": batch, "table": tab, "out": out}
+
+
+def validate_rows(rows, workdir, module="rows"):
+    """Validate independent rows (batch.extra.rows) with spec/<module>/MC_<module>."""
+    from abstraction import StemTable
+    tab = StemTable()
+    tab.note(rows)
+    stemtab = tab.finalize()
+    batch = {"stems": stemtab, "www": tab.rank[b"h:www|"], "traces": [], "extra": {"rows": tab.conv(rows)}}
+    os.makedirs(workdir, exist_ok=True)
+    bpath = os.path.join(workdir, "batch.json")
+    with open(bpath, "w") as f:
+        json.dump(batch, f)
+    src = os.path.join(SPEC, module)
+    for name in os.listdir(src):
+        with open(os.path.join(src, name)) as s, open(os.path.join(workdir, name), "w") as d:
+            d.write(s.read())
+    rc, out, wall = tlc(workdir, "MC_%s" % module, cfg="MC_%s.cfg" % module, env={"VERIF_BATCH": bpath},
+                        workers=os.environ.get("VERIF_TLC_WORKERS", "8"))
+    if "Model checking completed. No error has been found." not in out:
+        with open(os.path.join(workdir, "tlc.out"), "w") as f:
+            f.write(out)
+        raise MachineryError("TLC did not complete row validation (rc=%s)\n%s" % (rc, out[-3000:]))
+    verdicts = {}
+    for v in extract_verdicts(out):
+        _, rid, k, bad = v
+        verdicts[rid] = [(b[0], b[1]) for b in bad]
+    missing = [x["id"] for x in rows if x["id"] not in verdicts]
+    if missing:
+        raise MachineryError("no verdict for rows %s" % missing[:10])
+    m = STATS_RE.search(out)
+    return {"verdicts": verdicts, "states": (int(m.group(1)), int(m.group(2))) if m else (0, 0), "wall": wall,
+            "table": tab}
